@@ -94,6 +94,13 @@ def grid_index(W, H, allb):
     return xs, ys, idx
 
 
+def die_cells(d):
+    """number of cells of the die's grid of cut coordinates (the cost of evaluating the model on it)"""
+    W, H, boxes, fixed, _ = die_parts(d)
+    g = grid_index(W, H, [b[:4] for b in boxes] + fixed)
+    return 999 if g is None else (len(g[0]) - 1) * (len(g[1]) - 1)
+
+
 def cuts_complete(nx, ny, rects):
     ux = {0, nx} | {r[0] for r in rects} | {r[2] for r in rects}
     uy = {0, ny} | {r[1] for r in rects} | {r[3] for r in rects}
@@ -201,6 +208,22 @@ def rel_die(rng, d):
         out.append(mk(boxes, fixed, "onefield", W_=W * 2))
     else:
         out.append(mk(boxes, fixed, "onefield", H_=H * 2))
+    if boxes:
+        # one coordinate a hair (2^-20 of the die) away: equal under any rounding of a key, another design
+        i = rng.randrange(len(boxes))
+        b2 = copy.deepcopy(boxes)
+        k = rng.randrange(4)
+        b2[i][k] += (W if k in (0, 2) else H) * F(1, 2 ** 20) * (2 if k >= 2 else rng.choice([-1, 1]))
+        out.append(mk(b2, fixed, "nudge"))
+    # the same numbers written as integers where they are integral (2.0 -> 2)
+    m = mk(boxes, fixed, "form")
+    doc = m["op"]["doc"]
+    ints = lambda v: int(v) if isinstance(v, float) and v == int(v) and abs(v) < 2 ** 40 else v
+    doc["width"], doc["height"] = ints(doc["width"]), ints(doc["height"])
+    if "regions" in doc:
+        doc["regions"] = [ints(v) for v in doc["regions"]] if not isinstance(doc["regions"][0], list) else \
+            [[ints(v) for v in r] for r in doc["regions"]]
+    out.append(m)
     return out
 
 
@@ -253,6 +276,7 @@ def die_grid_family(rng, P):
     rest = rest[:14]
     tagpool = rng.sample(TAGS, 3)
     out = []
+    fam_refine = [rng.choice([1.5, 2.0, 3.0]), rng.choice([1, 4, 9])] if rng.random() < 0.3 else None
     for n, occ in [head] + rest:
         # merge horizontally adjacent occupied cells into one region now and then
         rects, used = [], set()
@@ -269,7 +293,7 @@ def die_grid_family(rng, P):
         bx, fx = split_fixed(rng, xs, ys, rects, tags, 0.5 if mode < 0.15 else 0.0)
         if rng.random() < 0.3:
             rng.shuffle(bx)
-        out.append(tag(die_design(W, H, bx, fx, "robust"), "grid:" + n))
+        out.append(tag(die_design(W, H, bx, fx, "robust", refine=fam_refine), "grid:" + n))
     return out
 
 
@@ -357,6 +381,9 @@ def rel_stog(rng, d):
         r2[i][3] *= 2                             # one rectangle twice as high
     out.append(mk(r2, "onefield"))
     x0, y0, x1, y1 = bbox4(rects)
+    r2 = copy.deepcopy(rects)
+    r2[i][rng.randrange(2)] += (x1 - x0) * F(1, 2 ** 20) * rng.choice([-1, 1])
+    out.append(mk(r2, "nudge"))
     out.append(mk([[r[1], r[0], r[3], r[2]] for r in rects], "transpose"))
     out.append(mk([[x0 + x1 - r[0], r[1], r[2], r[3]] for r in rects], "mirror-x"))
     out.append(mk([[r[0], y0 + y1 - r[1], r[2], r[3]] for r in rects], "mirror-y"))
@@ -424,6 +451,9 @@ def rel_alloc(rng, d):
         out.append(mk(c2, ops, "onefield"))
     rs = [c[0] for c in cells]
     x0, y0, x1, y1 = bbox4(rs)
+    c2 = copy.deepcopy(cells)
+    c2[i][0][2 + rng.randrange(2)] -= (x1 - x0) * F(1, 2 ** 20)
+    out.append(mk(c2, ops, "nudge"))
     out.append(mk([[[c[0][1], c[0][0], c[0][3], c[0][2]] + c[0][4:], c[1], c[2]] for c in cells], ops, "transpose"))
     out.append(mk([[[x0 + x1 - c[0][0]] + c[0][1:], c[1], c[2]] for c in cells], ops, "mirror-x"))
     out.append(mk([[[c[0][0], y0 + y1 - c[0][1]] + c[0][2:], c[1], c[2]] for c in cells], ops, "mirror-y"))
